@@ -320,6 +320,53 @@ def run(ctx):
                      else "band_inexact_differs_from_rational_model")
     rep.lap("band_compare")
 
+    # ---------------- the source text of the sampling loop itself ---------------------------
+    # tools/py2coq.py translates the loop of bandsample as it stands in the tree under test into a MiniPy term; the
+    # theorems of coq/src/SrcBandProps.v (the term computes Band.band_loop and terminates for every population) are
+    # re-checked against that term, and the term is run by the kernel's VM on prepared populations of this run: its
+    # sample must be the one the hand-written model (and, in exact mode, the real function) produced
+    src_cases = []
+    for j, r, mo in zip(full, impl, mouts):
+        pop, size, cutoff = j["population"], j["sample_size"], j["cutoff"]
+        if size <= 0 or len(pop) > 40 or mo[:1] == [-1] or len(src_cases) >= 60:
+            continue
+        idx = [i for i, (_, f) in enumerate(pop) if f >= cutoff]
+        if len(j["perm"]) != len(idx):
+            continue
+        idx = [idx[i] for i in j["perm"]]                                  # the pinned shuffle
+        idx.sort(key=lambda i: pop[i][1])                                  # list.sort is stable
+        total = sum(pop[i][1] for i in idx)
+        rd = core.Reader(mo[1:])
+        want = []
+        for _ in range(rd.int()):
+            want += [rd.int(), rd.int()]
+        src_cases.append((idx, [pop[i][1] for i in idx], total, size, want))
+    cases_v = (
+        "Definition run_band (pop : list (Z * Z)) (sn sd : Z) (vb : bool) : list Z :=\n"
+        " match exec (3 * length pop + 2) (f_body bandsample_loop_src) (bind_params (f_params bandsample_loop_src)\n"
+        "   [VList (map (fun e => VTuple [VInt (fst e); VInt (snd e)]) pop); VNum (Q2Qc (Qmake sn (Z.to_pos sd))); VBool vb]\n"
+        "   (fun _ => None)) with\n"
+        " | ONormal en' => match en' bandsample_loop_src_v_sample with\n"
+        "   | Some (VList l) => flat_map (fun t => match t with VTuple [VInt w; VInt f] => [w; f] | _ => [-1] end) l\n"
+        "   | _ => [-2] end\n"
+        " | ORaise _ => [-3] | OFuel => [-4] | OReturn _ => [-5] end.\n"
+        "Definition cases : list (list (Z * Z) * Z * Z) := [%s].\n"
+        "Eval vm_compute in (map (fun c => match c with (pop, sn, sd) => run_band pop sn sd (Z.even sn) end) cases).\n"
+        % "; ".join("([%s], %d, %d)" % ("; ".join("(%d, %d)" % (i, f) for i, f in zip(ix, fs)), total, size)
+                    for ix, fs, total, size, _ in src_cases))
+    sd = core.source_derived(sc, "Band", cases_v)
+    core.fold_source_derived(ctx, sd, "the sampling loop of preprocess.bandsample")
+    if sd["translated"] and sd["cases_output"] is not None:
+        got = core.parse_coq_list(sd["cases_output"])
+        agree = got == [c[4] for c in src_cases]
+        rep.note("source_term_run_by_the_vm", {"cases": len(src_cases), "agrees_with_the_hand_written_model": agree})
+        if not agree:
+            core.log("NOTE: the MiniPy term of the sampling loop and the hand-written model disagree on the sampled cases")
+            for t in ctx.props["theorems"]:
+                if t.get("source_derived"):
+                    t["assumptions"] = None
+    rep.lap("band_source")
+
     # ---------------- counters --------------------------------------------------
     n_cnt = 2500 if thorough else 500
     cjobs = []
